@@ -476,6 +476,35 @@ def run(ctx):
     _d8_parking(ctx)
 
 
+def _state_members(repo):
+    cls = repo.cls(PIPE + ':PipelineState')
+    out = [t.id for st in cls.node.body if isinstance(st, ast.Assign) for t in st.targets if isinstance(t, ast.Name)]
+    if 'running' not in out or len(out) < 2:
+        raise AnalysisError('PipelineState: members not recognised')
+    return out
+
+
+def _eval_state_test(test, member):
+    """Truth of a test that only looks at self._state, when the state is `member`; None when it looks at anything else."""
+    class T(ast.NodeTransformer):
+        def visit_Attribute(self, n):
+            if U.is_self_attr(n, '_state'):
+                return ast.copy_location(ast.Constant(member), n)
+            if isinstance(n.value, ast.Name) and n.value.id == 'PipelineState':
+                return ast.copy_location(ast.Constant(n.attr), n)
+            return n
+    import copy
+    e = ast.Expression(T().visit(copy.deepcopy(test)))
+    ast.fix_missing_locations(e)
+    if any(isinstance(x, (ast.Name, ast.Attribute, ast.Call)) for x in ast.walk(e)):
+        return None
+    try:
+        return bool(eval(compile(e, '<state-test>', 'eval'), {'__builtins__': {}}))
+    except Exception:
+        return None
+
+
+
 def _d8_parking(ctx):
     repo, ck = ctx.repo, ctx.check
     pl = repo.cls(PIPE + ':Pipeline')
@@ -559,6 +588,48 @@ def _d8_parking(ctx):
             ck.expect(okclr, 'C13-D8', m.qual, 'started with concurrency 0 -> self.%s.clear() before the supervisor loop' % ev,
                       'a pipeline that is run again after a stop (which leaves the un-pause event set) with the concurrency at 0 spins in its '
                       'supervisor loop without suspending', m.loc(st))
+    # (b'') a stop issued before the producer task has made its first step is not lost: Producer.process() sets its running flag
+    #       itself, so the wrapper that starts it must look at the pipeline state first
+    prod = repo.cls(PIPE + ':Producer')
+    pproc = prod.methods.get('process')
+    sets_running = pproc is not None and any(isinstance(st, ast.Assign) and isinstance(st.value, ast.Constant) and st.value.value is True
+                                             for st in F.assigned_attrs(pproc.node, '_running'))
+    for m in pl.methods.values():
+        cfg = ctx.cfg(m)
+        starts = [n for n in cfg.stmt_nodes() if any(norm_text(c) == 'self._producer.process()' for c in F.node_calls(n))]
+        for n in starts:
+            # every state other than `running` must be turned away before the producer is started: the tests on self._state met
+            # on the way are evaluated for each other member of the state enumeration
+            bad = None
+            for member in (_state_members(repo) if sets_running else ()):
+                if member == 'running':
+                    continue
+
+                def ok(a, b, k, member=member):
+                    if not F.normal(a, b, k):
+                        return False
+                    if a.kind == 'if' and k in ('T', 'F'):
+                        v = _eval_state_test(a.stmt.test, member)
+                        if v is not None:
+                            return v == (k == 'T')
+                    return True
+                p = cfg.find_path(cfg.entry, lambda x, n=n: x is n, edge_ok=ok)
+                if p is not None:
+                    bad = member
+                    break
+            ck.expect(bad is None, 'C13-D8', m.qual, 'the producer is started only while the pipeline is still running',
+                      'stop() in the same event-loop turn in which process() was started is lost (state `%s` reaches the start): Producer.stop() runs '
+                      'before Producer.process() sets its running flag, the producer then runs on with no worker left and process() hangs' % bad, m.loc(n.stmt))
+    # (b''') a worker that fails while the pipeline is stopping is not forgotten: wherever the worker tasks are awaited their
+    #        results are retrieved (asyncio.wait alone never raises a task's exception)
+    for m in pl.methods.values():
+        for c in U.calls(m.node):
+            if dotted(c.func) == 'asyncio.wait' and c.args and norm_text(c.args[0]) == 'self._worker_tasks':
+                retrieved = any(isinstance(x, ast.Call) and isinstance(x.func, ast.Attribute) and x.func.attr in ('result', 'exception')
+                                for x in walk_no_nested(m.node)) or any(dotted(x.func) == 'asyncio.gather' for x in U.calls(m.node))
+                ck.expect(retrieved, 'C13-D8', m.qual, 'results of the awaited worker tasks are retrieved',
+                          'a task that fails after stop() was requested is only waited for, its exception is never retrieved: the failure does '
+                          'not surface from process() (and, its poison pill untaken, the producer can stay blocked behind a queued item)', m.loc(c))
     # (c) the producer at shutdown
     sd = [m for m in pl.methods.values() if any(norm_text(y) == 'yield from self._producer_task' for y in walk_no_nested(m.node) if isinstance(y, ast.YieldFrom))]
     if len(sd) != 1:
